@@ -679,6 +679,44 @@ fn main() {
         run_case(&mut cx, &w, &c, &m, rate);
     }
 
+    // (3) decimal durations that are exact multiples of the sample period as written (k ns at
+    // 1 GS/s, k us at 1 MS/s, ...).  The f64 nearest to k * 10^-e is not a dyadic multiple, so the
+    // outcome depends on IEEE rounding of duration * rate, which the model does not cover: these are
+    // judged here against the property directly (the duration aligns, so k samples are expected).
+    let ndec = if args.thorough() { 20000 } else { 3000 };
+    let mut dec_ok = 0u64;
+    let mut dec_rejected = 0u64;
+    for i in 0..ndec {
+        let (rate, e) = *rng.pick(&[(1.0e9, 9), (1.0e9, 9), (1.0e6, 6), (1.0e3, 3)]);
+        let k = if i % 3 == 0 { rng.range(1, 4000) } else { rng.range(4000, 400_000) } as u64;
+        let duration: f64 = format!("{k}e-{e}").parse().unwrap();
+        let w = Wf { kind: Kind::Flat, ps: vec![], iq: Complex64::new(1.0, 0.0), pad_l: 0.0, pad_r: 0.0 };
+        let c = Common { duration, scale: None, phase: None, detuning: None };
+        let desc = format!("flat duration={duration:?} rate={rate:?} (= {k} sample periods)");
+        match sample_c(&w, &c, rate) {
+            Ok(s) if s.sample_count() as u64 == k => dec_ok += 1,
+            Ok(s) => cx.run.process_failure(
+                &format!("aligned decimal duration gave {} samples instead of {k}", s.sample_count()),
+                &desc,
+                None,
+            ),
+            Err(SamplingError::MisalignedDuration { misalignment, max_misalignment, .. }) => {
+                dec_rejected += 1;
+                // known class: the misalignment (in samples) is below 1% of a sample, yet above the
+                // code's tolerance 1/(100 rate), which is a time in seconds compared with samples
+                let known = misalignment.abs() < 0.01 && misalignment.abs() >= max_misalignment && rate > 1.0;
+                cx.run.process_failure(
+                    &format!("aligned decimal duration rejected as misaligned (misalignment {misalignment:e} samples, tolerance {max_misalignment:e})"),
+                    &desc,
+                    if known { Some("misalignment-tolerance-units") } else { None },
+                );
+            }
+            Err(e) => cx.run.process_failure(&format!("aligned decimal duration rejected: {e}"), &desc, None),
+        }
+    }
+    cx.run.count_n("decimal-aligned=ok", dec_ok);
+    cx.run.count_n("decimal-aligned=rejected", dec_rejected);
+
     let skipped = cx.skipped;
     cx.run.note(&format!("{skipped} generated inputs skipped: f64 rounding of duration*rate or pad*rate not provably exact / too close to a threshold"));
     cx.run.finish(
@@ -687,6 +725,6 @@ fn main() {
          rates additionally {0,-1,2^-10,3}. Distinct by the full parameter description; non-trivial = the concrete \
          API returned at least one sample.",
         false,
-        serde_json::json!({"exhaustive_cases": exhaustive, "random_cases": nrand, "skipped": skipped, "mutant": mutant}),
+        serde_json::json!({"exhaustive_cases": exhaustive, "random_cases": nrand, "decimal_aligned_probes": ndec, "decimal_aligned_rejected": dec_rejected, "skipped": skipped, "mutant": mutant}),
     );
 }
